@@ -27,7 +27,7 @@ def struct_key(mod, name):
 def program_lines(obs):
     """S/F lines of the derive input; None when the program uses a shape the model does not cover
     (an alias of a primitive used as a member type is a struct for yaserde_derive and does not compile)"""
-    defined = {struct_key(s["mod"], s["name"]) for s in obs["structs"]}
+    defined = {struct_key(s["mod"], s["name"]) for s in obs["structs"] if "YaSerialize" in s["derives"]}
     alias = {struct_key(a["mod"], a["name"]): (a["mod"], a["leaf"]) for a in obs["aliases"]}
 
     def resolve(mod, leaf, depth=0):
@@ -58,6 +58,8 @@ def program_lines(obs):
 
     out = []
     for s in obs["structs"]:
+        if "YaSerialize" not in s["derives"]:
+            continue          # the service client struct: not a wire type
         nss = ";".join(f"{p.encode().hex() or '-'}={u.encode().hex() or '-'}" for p, u in sorted(s["ns"])) or "-"
         rename = s["rename"] if s["rename"] is not None else s["name"]
         out.append("\t".join(["S", struct_key(s["mod"], s["name"]).encode().hex(), hx0(s["prefix"]) if s["prefix"] is not None else "-", hx0(rename), nss]))
@@ -149,6 +151,8 @@ def canon_local_attrs(c):
 def check(results):
     """results: the dicts of rt.run_roundtrips (side 'impl'). Returns (compared, disagreements, skipped, classes)"""
     by_case = {}
+    ref_status = {r["rid"]: r["status"] for r in results if r["side"] == "ref"}
+    runtime_limits = 0
     for r in results:
         if r["side"] != "impl" or r["status"] in ("missing-type", "not-run"):
             continue
@@ -204,11 +208,12 @@ def check(results):
         compared += 1
         real = r["status"]
         classes[real] = classes.get(real, 0) + 1
-        if real in ("hang", "panic"):
-            # the model has no such outcome: recursion of the runtime on recursive types is excluded by the generator
-            dis.append((r, f"real runtime: {real}; model: {rep['status']}"))
-            continue
         mstat = {"undeclared-prefix": "ok"}.get(rep["status"], rep["status"])
+        if real in ("hang", "panic", "de-err") and mstat == "ok" and ref_status.get(r["rid"]) == real:
+            # the runtime's event loop loses track of the depth on elements nested in an element of the same
+            # (recursive) type; hand-written reference structs fail the same way. Outside the tree-level model.
+            runtime_limits += 1
+            continue
         if mstat != real:
             dis.append((r, f"outcome: real {real} ({r['detail'][:80]}), model {rep['status']}"))
             continue
@@ -228,4 +233,5 @@ def check(results):
                 continue
             if rep["fix"] != r["fix"]:
                 dis.append((r, f"fixpoint: real {r['fix']}, model {rep['fix']}"))
+    classes["runtime-limit-excluded"] = runtime_limits
     return compared, dis, skipped, classes
